@@ -9,6 +9,8 @@ import (
 	"strconv"
 	"strings"
 
+	"golang.org/x/crypto/ed25519"
+
 	"github.com/ontio/ontology-crypto/ec"
 	"github.com/ontio/ontology-crypto/keypair"
 	osig "github.com/ontio/ontology-crypto/signature"
@@ -35,6 +37,7 @@ import (
 //	genesis <h> <cfg>                      ONTHandler.SyncGenesisHeader (operator-witnessed transaction): installs header h
 //	                                       and (cfg != "-") its peer set
 //	hdr <h> <nonce> <cfg> <bks> <sigs>     ONTHandler.SyncBlockHeader with one header
+//	hbatch <h>/<nonce>/<cfg>/<bks>/<sigs> [| ...]   ONTHandler.SyncBlockHeader with several headers in one call
 //	msg <h> <bks> <sigs>                   header_sync ONTHandler.SyncCrossChainMsg with one message
 //	dep <h> <bks> <sigs>                   cross_chain_manager ONTHandler.MakeDepositProposal up to the side-chain lookup
 //	state                                  key heights, peer sets, stored header / message heights
@@ -67,6 +70,9 @@ var ontKeys = func() []ontKey {
 	for i := range ks {
 		d := sha256.Sum256([]byte(fmt.Sprintf("polyverif-ont-key-%d", i)))
 		switch {
+		case i == 12: // one Ed25519 key
+			k := ed25519.NewKeyFromSeed(d[:])
+			ks[i] = ontKey{pri: k, pub: k.Public().(ed25519.PublicKey), scheme: osig.SHA512withEDDSA}
 		case i == 13: // one SM2 key
 			k := &ec.PrivateKey{Algorithm: ec.SM2, PrivateKey: ec.ConstructPrivateKey(d[:], sm2Curve())}
 			ks[i] = ontKey{pri: k, pub: k.Public().(keypair.PublicKey), scheme: osig.SM3withSM2}
@@ -220,11 +226,21 @@ func ontErrClass(err error) string {
 // raw CacheDB reads + the exported decoders).
 func (f *ontFam) trackedAt(h uint32) (map[string]bool, bool) {
 	ns := newNative(f.db, nil)
-	kh, err := ont.FindKeyHeight(ns, h, ontChainID)
+	khs, err := ont.GetKeyHeights(ns, ontChainID)
 	if err != nil {
 		return nil, false
 	}
-	peers, ok := f.peersAt(kh)
+	// the property's own choice: the greatest recorded key height strictly below h
+	best, found := uint32(0), false
+	for _, v := range khs.HeightList {
+		if v < h && (!found || v > best) {
+			best, found = v, true
+		}
+	}
+	if !found {
+		return nil, false
+	}
+	peers, ok := f.peersAt(best)
 	return peers, ok
 }
 
@@ -373,6 +389,55 @@ func (f *ontFam) Exec(r *hx.Run, op []string) string {
 			r.Viol("C31:ont-header:stored-although-rejected", fmt.Sprintf("header %d rejected (%s) but present in the store", h, res))
 		}
 		return res
+	case "hbatch":
+		// several headers in ONE SyncBlockHeader call: hbatch <h>/<nonce>/<cfg>/<bks>/<sigs> [| ...]
+		p := &hscommon.SyncBlockHeaderParam{ChainID: ontChainID}
+		var heights []uint32
+		for _, tok := range op[1:] {
+			if tok == "|" {
+				continue
+			}
+			q := strings.Split(tok, "/")
+			if len(q) != 5 {
+				return "bad-op"
+			}
+			h64, err1 := strconv.ParseUint(q[0], 10, 32)
+			nonce, err2 := strconv.ParseUint(q[1], 10, 64)
+			payload, ok1 := ontPayload(q[2])
+			bks, ok2 := parseIdx(q[3])
+			specs, ok3 := parseSigs(q[4])
+			if err1 != nil || err2 != nil || !ok1 || !ok2 || !ok3 {
+				return "bad-op"
+			}
+			hd := ontHeader(uint32(h64), nonce, payload)
+			for _, i := range bks {
+				hd.Bookkeepers = append(hd.Bookkeepers, ontKeys[i].pub)
+			}
+			hash := hd.Hash()
+			hd.SigData = ontMakeSigs(specs, hash[:])
+			sink := ocommon.NewZeroCopySink(nil)
+			hd.Serialization(sink)
+			p.Headers = append(p.Headers, sink.Bytes())
+			heights = append(heights, uint32(h64))
+			f.seenH[uint32(h64)] = true
+		}
+		ps := common.NewZeroCopySink(nil)
+		p.Serialization(ps)
+		ns := newNative(f.db, ps.Bytes())
+		res := ontErrClass(ont.NewONTHandler().SyncBlockHeader(ns))
+		var stored []int
+		seen := map[uint32]bool{}
+		for _, h := range heights {
+			if seen[h] {
+				continue
+			}
+			seen[h] = true
+			if _, err := ont.GetHeaderByHeight(ns, ontChainID, h); err == nil {
+				stored = append(stored, int(h))
+			}
+		}
+		sort.Ints(stored)
+		return res + " stored=" + joinInts(stored)
 	case "msg", "dep":
 		if len(op) != 4 {
 			return "bad-op"
@@ -890,6 +955,39 @@ func (f *ontFam) genHdr(r *hx.Run) {
 							rec("msg-at-keyheight-new-set", r.Do(fmt.Sprintf("msg %d %s %s", e.h, idxList(b2), s2)), len(at))
 							b1, s1, _ := signerShape(r, below, 2)
 							rec("msg-at-keyheight-old-set", r.Do(fmt.Sprintf("msg %d %s %s", e.h, idxList(b1), s1)), len(below))
+						}
+					}
+				case step == nShapes+12: // several headers in one call; a configuration change takes effect for the rest of the batch
+					h1 := fresh(top()+1, top()+10)
+					set1, _ := inForce(h1)
+					b1, s1, _ := signerShape(r, set1, 2)
+					ns := r.Rng.Perm(ontPool)[:1+r.Rng.Intn(10)]
+					h2 := h1 + 1 + uint32(r.Rng.Intn(5))
+					b2, s2, _ := signerShape(r, ns, 2) // signed by the set installed by the first header of the batch
+					h3 := h2 + 1 + uint32(r.Rng.Intn(5))
+					var b3 []int
+					var s3, kind string
+					switch r.Rng.Intn(3) {
+					case 0:
+						b3, s3, _ = signerShape(r, ns, 2)
+						kind = "all-good"
+					case 1:
+						b3, s3, _ = signerShape(r, set1, 2) // old set: refused (unless the sets overlap enough)
+						kind = "third-old-set"
+					default:
+						b3, s3, _ = signerShape(r, ns, 8)
+						kind = "third-bad-sig"
+					}
+					nonce += 3
+					res := r.Do(fmt.Sprintf("hbatch %d/%d/%s/%s/%s | %d/%d/-/%s/%s | %d/%d/-/%s/%s", h1, nonce-2, idxList(ns), idxList(b1), s1,
+						h2, nonce-1, idxList(b2), s2, h3, nonce, idxList(b3), s3))
+					rec("batch-"+kind, strings.Fields(res)[0], len(set1))
+					for _, tok := range strings.Split(strings.TrimPrefix(strings.Fields(res)[1], "stored="), ",") {
+						if v, err := strconv.Atoi(tok); err == nil {
+							used[uint32(v)] = true
+							if uint32(v) == h1 {
+								epochs = append(epochs, epoch{h1, ns})
+							}
 						}
 					}
 				default:
